@@ -365,7 +365,12 @@ func UnparseCmd(c Cmd, ns string, p *Program, st Style) string {
 		for _, pa := range params {
 			switch pa["k"].(string) {
 			case "pv":
-				s += "{param " + pa["key"].(string) + ": " + ex(pa["e"]) + " /}"
+				v := ex(pa["e"])
+				if c["paramattrs"] == true && !strings.ContainsAny(v, "\"\\") {
+					s += "{param key=\"" + pa["key"].(string) + "\" value=\"" + v + "\" /}"
+				} else {
+					s += "{param " + pa["key"].(string) + ": " + v + " /}"
+				}
 			case "pc":
 				s += "{param " + pa["key"].(string) + "}" + sub(pa["body"]) + "{/param}"
 			}
